@@ -3,7 +3,7 @@
 # Confirms a seeded change in its scratch worktree (/tmp/wt_<seed-id>), then runs ./check against it applied to /repo.
 set -u
 ID=$1; PROP=$2; shift 2; EXTRA="$@"
-WT=/tmp/wt_$ID; OUT=/tmp/seed_out/$ID; DEST=/verif/seeded/$ID
+WT=${WT_PREFIX:-/tmp/wt_}$ID; OUT=${OUT_PREFIX:-/tmp/seed_out}/$ID; DEST=/verif/seeded/$ID${DEST_SUFFIX:-}
 mkdir -p $DEST
 cd $WT || exit 2
 git diff -- src > $DEST/patch.diff
